@@ -176,6 +176,7 @@ type prioMon struct {
 	fullStates       int
 	saturated        bool
 	satEnded         bool
+	condAt           int64 // virtual time at which 'drained and released' became true (-1: not yet)
 	removed          map[*vrt.ChanState]bool
 	pendingReg       map[*vrt.ChanState]uint
 	inHand           *Item
@@ -186,7 +187,10 @@ type prioMon struct {
 
 func (m *prioMon) Hash() uint64 {
 	h := vrt.Mix(uint64(m.total), uint64(m.handling), uint64(m.faulted), uint64(m.faultKind), uint64(m.sentAfterFault))
-	if m.cfg.Mode != "endless" {
+	if m.cfg.Mode == "mixed" {
+		// runs of unbounded length: only the positions of the finite inputs are state
+		h = vrt.Mix(h, hashInts(m.nextSeq), hashInts(m.written))
+	} else if m.cfg.Mode != "endless" {
 		// in endless mode runs have unbounded length: the counters below grow for
 		// ever and carry no information the oracles of that mode use
 		h = vrt.Mix(h, uint64(m.delivered), uint64(m.released), hashInts(m.nextSeq), hashInts(m.written))
@@ -213,6 +217,13 @@ func (m *prioMon) Hash() uint64 {
 	h = vrt.Mix(h, b, uint64(len(m.errSeen)))
 	if m.inHand != nil {
 		h = vrt.Mix(h, m.inHand.VrtKey())
+	}
+	if m.condAt >= 0 {
+		age := m.w.Clock - m.condAt
+		if age > promptBound+1 {
+			age = promptBound + 1
+		}
+		h = vrt.Mix(h, 0xc07d, uint64(age))
 	}
 	for c := range m.removed {
 		if m.removed[c] {
@@ -254,7 +265,35 @@ func decode(v any) (uint, Item, bool) {
 	return 0, Item{}, false
 }
 
+// drainedAndReleased: every registered input is closed and empty and nothing is in flight.
+func (m *prioMon) drainedAndReleased() bool {
+	if m.total != 0 || m.inHand != nil {
+		return false
+	}
+	for i, c := range m.ins {
+		if _, registered := m.reg[c]; !registered {
+			continue
+		}
+		if !m.inClosed[i] || c.Len() != 0 {
+			return false
+		}
+	}
+	return len(m.reg) > 0
+}
+
+const promptBound = 1000 // ns of virtual time; the unchanged code needs none
+
 func (m *prioMon) OnEvent(w *vrt.World, ev *vrt.Event) {
+	defer func() {
+		if m.condAt < 0 && m.drainedAndReleased() {
+			m.condAt = w.Clock
+		}
+	}()
+	if ev.Kind == vrt.EvClose && ev.Ch == m.errc && m.condAt >= 0 && m.faulted == 0 && (m.cfg.Disc == "v2" || m.cfg.Disc == "s2") {
+		if w.Clock-m.condAt > promptBound {
+			m.f.fail("C07", "all inputs were closed and drained and everything was released at %d ns, but the discipline terminated only at %d ns: not promptly", m.condAt, w.Clock)
+		}
+	}
 	if ev.Kind == vrt.EvRecv && m.saturated && ev.T.Lib {
 		if i := m.inputIndex(ev.Ch); i >= 0 && ev.Ch.Len() == 0 {
 			// the input ran empty: "data waiting continuously" no longer holds
@@ -390,7 +429,7 @@ func (m *prioMon) onDeliver(w *vrt.World, ev *vrt.Event) {
 		m.f.fail("C02", "item %v of the input registered for priority %d delivered with priority %d", it, want, p)
 	}
 	rough := isRough(m.cfg)
-	if m.cfg.Mode == "endless" {
+	if m.cfg.Mode == "endless" || (it.In < len(m.cfg.N) && m.cfg.N[it.In] < 0) {
 		// identical payloads: only tag, capacity and shares are checked
 	} else if it.Seq != m.nextSeq[it.In] && !(rough && it.Seq > m.nextSeq[it.In] && it.Seq < m.written[it.In]) {
 		// under a rough stop an item read but not delivered is lost: what is
@@ -430,7 +469,9 @@ func (c *cond) KeyID() uint64            { return c.id }
 func init() { Register("prio", buildPrio) }
 
 func buildPrio(c Cfg) *explore.Scenario {
-	opt := vrt.Options{Clock: vrt.ClockNone, EagerBelow: 1000, KeyHistory: c.KeyHistory, MaxSteps: c.MaxSteps, ResetDepth: libResetDepth}
+	// sleeps and tickers below a microsecond are "no time" (the disciplines poll with
+	// 1 ns); anything longer takes virtual time, which the promptness clause of C07 measures
+	opt := vrt.Options{Clock: vrt.ClockLapse, EagerBelow: 1000, KeyHistory: c.KeyHistory, MaxSteps: c.MaxSteps, ResetDepth: libResetDepth}
 	if opt.MaxSteps == 0 {
 		opt.MaxSteps = 4000
 	}
@@ -443,7 +484,7 @@ type prioEnv struct {
 }
 
 func newPrio(c Cfg, w *vrt.World) *explore.Instance {
-	m := &prioMon{cfg: c, w: w, P: c.P, H: c.H, inflight: map[uint]int{}, reg: map[*vrt.ChanState]uint{}, origin: map[int]*vrt.ChanState{}, handled: map[Item]int{}, removed: map[*vrt.ChanState]bool{}, pendingReg: map[*vrt.ChanState]uint{}}
+	m := &prioMon{cfg: c, w: w, P: c.P, H: c.H, condAt: -1, inflight: map[uint]int{}, reg: map[*vrt.ChanState]uint{}, origin: map[int]*vrt.ChanState{}, handled: map[Item]int{}, removed: map[*vrt.ChanState]bool{}, pendingReg: map[*vrt.ChanState]uint{}}
 	m.f = failer{c, w}
 	np := len(c.P)
 	nx := 0
@@ -482,9 +523,12 @@ func newPrio(c Cfg, w *vrt.World) *explore.Instance {
 		}
 		return c.N[len(c.N)-1]
 	}
+	endlessIn := func(i int) bool { return c.Mode == "endless" || nOf(i) < 0 }
 	totalItems := 0
 	for i := 0; i < np; i++ {
-		totalItems += nOf(i)
+		if !endlessIn(i) {
+			totalItems += nOf(i)
+		}
 	}
 	var v1 v1Ctl
 	var held []uint // rr environment: priorities of received, unreleased items
@@ -507,7 +551,7 @@ func newPrio(c Cfg, w *vrt.World) *explore.Instance {
 				m.reg[st] = p
 				inMap[p] = ch
 			}
-			if c.Mode == "endless" {
+			if endlessIn(i) {
 				vrt.Endless(ch, Item{i, 0, true})
 				continue
 			}
@@ -586,7 +630,9 @@ func newPrio(c Cfg, w *vrt.World) *explore.Instance {
 			m.out = vrt.NameChan[prio1.Prioritized[Item]](output, "out")
 			m.fb = vrt.NameChan[uint](feedback, "feedback")
 			o := prio1.Opts[Item]{Divider: divw.v1, Feedback: feedback, HandlersQuantity: c.H, Inputs: inMap, Output: output}
-			if c.Stop == "cancel" || c.Stop == "both" || c.Stop == "precancel" {
+			if c.UserCtx {
+				o.Ctx, v1.cancel = newUserCtx()
+			} else if c.Stop == "cancel" || c.Stop == "both" || c.Stop == "precancel" {
 				o.Ctx, v1.cancel = vcontext.WithCancel(vcontext.Background())
 			}
 			if c.Stop == "precancel" {
@@ -632,7 +678,9 @@ func newPrio(c Cfg, w *vrt.World) *explore.Instance {
 				m.handling--
 			}
 			o := prio1.SimpleOpts[Item]{Divider: divw.v1, Handle: handle, HandlersQuantity: c.H, Inputs: inMap}
-			if c.Stop == "cancel" || c.Stop == "both" || c.Stop == "precancel" {
+			if c.UserCtx {
+				o.Ctx, v1.cancel = newUserCtx()
+			} else if c.Stop == "cancel" || c.Stop == "both" || c.Stop == "precancel" {
 				o.Ctx, v1.cancel = vcontext.WithCancel(vcontext.Background())
 			}
 			if c.Stop == "precancel" {
@@ -659,7 +707,7 @@ func newPrio(c Cfg, w *vrt.World) *explore.Instance {
 		// producers for inputs that are not prefilled
 		for i := range c.P {
 			n := nOf(i)
-			if n <= capOf(i) || c.Mode == "endless" {
+			if n <= capOf(i) || endlessIn(i) {
 				continue
 			}
 			i := i
@@ -677,7 +725,7 @@ func newPrio(c Cfg, w *vrt.World) *explore.Instance {
 			})
 		}
 		// closer for prefilled inputs: closes them in any order at any time
-		if len(prefilled) > 0 && c.Mode != "open" && c.Mode != "saturate" && c.Mode != "alone" && c.Mode != "gracefulfirst" {
+		if len(prefilled) > 0 && c.Mode != "open" && c.Mode != "saturate" && c.Mode != "alone" && c.Mode != "gracefulfirst" && c.Mode != "mixed" {
 			vrt.Spawn("closer", func() {
 				// fixed order (descending priority, or ascending with Mode closeasc); the
 				// scheduler places every close at every point of the run
@@ -801,6 +849,19 @@ func newPrio(c Cfg, w *vrt.World) *explore.Instance {
 		if c.Mode == "idleopen" {
 			return m.delivered == totalItems
 		}
+		if c.Mode == "mixed" {
+			// some inputs are saturated for ever; every item of the finite inputs that
+			// are registered once the script is over is delivered
+			if !v1.scriptDone {
+				return false
+			}
+			for i := 0; i < np; i++ {
+				if _, registered := m.reg[m.origin[i]]; registered && !endlessIn(i) && m.nextSeq[i] != nOf(i) {
+					return false
+				}
+			}
+			return true
+		}
 		return m.errClosed
 	}
 	inst.State = func(w *vrt.World) string { return m.stateOracle(w) }
@@ -831,7 +892,7 @@ func newPrio(c Cfg, w *vrt.World) *explore.Instance {
 
 func (m *prioMon) terminal(w *vrt.World, out vrt.Outcome, totalItems int, divw *dividerWrap) string {
 	c := m.cfg
-	if c.Mode == "open" || c.Mode == "saturate" || c.Mode == "withhold" || c.Mode == "endless" {
+	if c.Mode == "open" || c.Mode == "saturate" || c.Mode == "withhold" || c.Mode == "endless" || c.Mode == "mixed" {
 		return ""
 	}
 	if c.Mode == "alone" {
@@ -859,7 +920,7 @@ func (m *prioMon) terminal(w *vrt.World, out vrt.Outcome, totalItems int, divw *
 		}
 		return ""
 	}
-	if m.faulted != 0 {
+	if m.faulted != 0 && !(isRough(c) && (c.Disc == "v1" || c.Disc == "s1")) {
 		// C15: after a fault in a round division the discipline reports and terminates
 		if !want(c, "C15") {
 			if m.errClosed {
@@ -1092,6 +1153,9 @@ func (d *dividerWrap) maybeFault(priorities []uint, dividend uint, distribution 
 }
 
 func spawnErrReader(m *prioMon, errs <-chan error) {
+	if m.cfg.NoErr {
+		return // the user never looks at Err() (documented as optional)
+	}
 	vrt.Spawn("errreader", func() {
 		for {
 			e, ok := vrt.Recv2(errs)
